@@ -1226,6 +1226,10 @@ R"(
     }
     static uint32_t last_tsc = 0;
     static inline bool if_update_now(bool accurate = false) {
+#ifdef PHOTON_VERIF     // model checking: time is virtual, the TSC must not decide anything
+        update_now();
+        return true;
+#endif
 #if defined(__x86_64__) && defined(__linux__) && defined(ENABLE_MIMIC_VDSO)
         if (likely(__mimic_vdso_time_x86)) {
             return photon::now = __mimic_vdso_time_x86.get_now(accurate);
